@@ -25,7 +25,7 @@ class Ctx:
     def __init__(self):
         self.maxmag = 1.0
 
-    def see(self, x):
+    def see(self, x, leaf=False):
         try:
             m = abs(float(x))
         except OverflowError:
@@ -34,6 +34,8 @@ class Ctx:
             raise IllCond("overflow")
         if m > 1e150:
             raise IllCond("huge")
+        if not leaf and ((0 < m < 1e-290) or (m == 0.0 and isinstance(x, Fraction) and x != 0)):
+            raise IllCond("tiny")          # an intermediate that underflows (or nearly): excluded like overflow
         if m > self.maxmag:
             self.maxmag = m
         return x
@@ -48,11 +50,13 @@ def lit(v):
         return Fraction(v["n"], v["d"])
     if v["k"] == "e":
         return math.e
-    return float(v["repr"])
+    # a float GIVEN as input (coordinate, constant, base) is an exact dyadic rational: keep it exact, so that only genuinely
+    # inexact intermediates (results of transcendental functions) count as "too close to a boundary to judge"
+    return Fraction(float(v["repr"]))
 
 
 def _shrink(x):
-    if isx(x) and (x.numerator.bit_length() > 600 or x.denominator.bit_length() > 600):
+    if isx(x) and (x.numerator.bit_length() > 2400 or x.denominator.bit_length() > 2400):
         return float(x)
     return x
 
@@ -97,7 +101,7 @@ def ipow(a, k):
     if k == 0:
         return Fraction(1)
     if isx(a):
-        if a != 0 and abs(k) * max(a.numerator.bit_length(), a.denominator.bit_length()) > 1500:
+        if a != 0 and abs(k) * max(a.numerator.bit_length(), a.denominator.bit_length()) > 2400:
             try:
                 return float(a) ** k
             except OverflowError:
@@ -207,9 +211,9 @@ def dv(e, v, p, cx):
     op = e["op"]
     S = cx.see
     if op == "Variable":
-        return S(lit(p[e["name"]])), Fraction(1 if e["name"] == v else 0)
+        return S(lit(p[e["name"]]), True), Fraction(1 if e["name"] == v else 0)
     if op == "Constant":
-        return S(lit(e["val"])), Fraction(0)
+        return S(lit(e["val"]), True), Fraction(0)
     if op == "Add":
         ds = [dv(c, v, p, cx) for c in e["args"]]
         a, d = Fraction(0), Fraction(0)
@@ -297,7 +301,7 @@ def out_of_range(e, p):
     """True when exact intermediates of e at p leave the floating-point range (the properties exclude such cases).
     Used to PRE-SCREEN cases: Python would try to build astronomically large integers for some of them (30 GB observed)."""
     r = value(e, p)
-    return r[0] == "illcond" and len(r) > 1 and r[1] in ("overflow", "huge")
+    return r[0] == "illcond" and len(r) > 1 and r[1] in ("overflow", "huge", "tiny")
 
 
 def sv_record(res):
